@@ -49,7 +49,6 @@ theorem applyFrame_carries (idx : Nat) (f : Frame) (cjs : Bool) {v : JsVal} {fl 
             exceptionFromValue, wrapJSFuncE, returnErr, wrapReflectErr, hu, Carries]
       · simp [Frame.unwraps] at hu
     | ja => simp [Frame.swallows] at hsw
-    | fot => simp [Frame.swallows] at hsw
     | rfw => simp [Frame.rewraps] at hrw
     | _ =>
       cases cjs <;>
@@ -68,7 +67,6 @@ theorem applyFrame_carries (idx : Nat) (f : Frame) (cjs : Bool) {v : JsVal} {fl 
             exceptionFromValue, wrapJSFuncE, returnErr, wrapReflectErr, hu, Carries]
       · simp [Frame.unwraps] at hu
     | ja => simp [Frame.swallows] at hsw
-    | fot => simp [Frame.swallows] at hsw
     | rfw => simp [Frame.rewraps] at hrw
     | _ =>
       cases cjs <;>
